@@ -409,35 +409,46 @@ func (c *client) waitForCompletion(ctx context.Context, rc hrpc.RegionClient,
 	ok = true
 	canceledIndex := len(rpcs)
 
+	handleResult := func(rpc hrpc.Call, res hrpc.RPCResult) {
+		results[rpcToRes[rpc]] = res
+		if res.Error != nil {
+			c.handleResultError(res.Error, rpc.Region(), rc)
+			ok = false
+			switch res.Error.(type) {
+			case region.RetryableError:
+				shouldBackoff = true
+				retryables = append(retryables, rpc)
+			case region.ServerError, region.NotServingRegionError:
+				retryables = append(retryables, rpc)
+			default:
+				unretryableError = true
+			}
+		}
+	}
+
 loop:
 	for i, rpc := range rpcs {
 		select {
 		case res := <-rpc.ResultChan():
-			results[rpcToRes[rpc]] = res
-			if res.Error != nil {
-				c.handleResultError(res.Error, rpc.Region(), rc)
-				ok = false
-				switch res.Error.(type) {
-				case region.RetryableError:
-					shouldBackoff = true
-					retryables = append(retryables, rpc)
-				case region.ServerError, region.NotServingRegionError:
-					retryables = append(retryables, rpc)
-				default:
-					unretryableError = true
-				}
-			}
+			handleResult(rpc, res)
 
 		case <-rpc.Context().Done():
 			// A call with a context of its own that is done is dropped
 			// by the region client without a result.
-			if rpc.Context() == ctx {
+			if ctx.Err() != nil {
+				// it's the batch's context (or a parent of it) that is done
 				canceledIndex = i
 				break loop
 			}
-			results[rpcToRes[rpc]].Error = rpc.Context().Err()
-			unretryableError = true
-			ok = false
+			// its result may have arrived as well
+			select {
+			case res := <-rpc.ResultChan():
+				handleResult(rpc, res)
+			default:
+				results[rpcToRes[rpc]].Error = rpc.Context().Err()
+				unretryableError = true
+				ok = false
+			}
 
 		case <-ctx.Done():
 			canceledIndex = i
